@@ -72,3 +72,21 @@ package main
 //@   assert at call ApplyMutation#2 [C05] given_from_given: $1 == pres.Acs.Given
 //@   ensures [C05] only_this_user: forall u types.Uid :: u != types.ParseUserId(pres.Src) ==> (u in t.perUser) == old(u in t.perUser) && t.perUser[u].modeWant == old(t.perUser[u].modeWant) && t.perUser[u].modeGiven == old(t.perUser[u].modeGiven)
 //@   modifies *
+
+// ---------------------------------------------------------------------------------------------
+// C04: deleting messages
+// ---------------------------------------------------------------------------------------------
+// effective permissions of user u in topic t: requested AND granted
+//@ spec func effMode(t *Topic, u types.Uid) types.AccessMode { return t.perUser[u].modeGiven & t.perUser[u].modeWant }
+
+//@ func (t *Topic) replyDelMsg(sess *Session, asUid types.Uid, asChan bool, msg *ClientComMessage) (err error)
+//@   requires [C04] t != nil && sess != nil && msg != nil && msg.Del != nil && asUid != types.ZeroUid
+//@   assert at call DeleteList [C04] gate:          !asChan && (effMode(t, asUid) & (types.ModeDelete | types.ModeRead)) != 0
+//@   assert at call DeleteList [C04] target:        $1 == t.name && $2 == t.delID + 1 && ($3 == types.ZeroUid || $3 == asUid)
+//@   assert at call DeleteList [C04] hard_needs_D:  $3 == types.ZeroUid ==> old(msg.Del.Hard) && (effMode(t, asUid) & types.ModeDelete) != 0
+//@   assert at call DeleteList [C04] soft_for_self: $3 == asUid ==> !(old(msg.Del.Hard) && (effMode(t, asUid) & types.ModeDelete) != 0)
+//@   ensures [C04] delid_next: err == nil ==> t.delID == old(t.delID) + 1
+//@   ensures [C04] delid_kept: err != nil ==> t.delID == old(t.delID)
+//@   modifies *
+//@   loop 1
+//@     invariant wf: forall k int :: 0 <= k && k < len(ranges) ==> ranges[k].Low >= 0 && (ranges[k].Hi == 0 || ranges[k].Hi > ranges[k].Low)
